@@ -92,8 +92,10 @@ def run(ctx, only_saveload=False, pid="C14"):
     rng = ctx.rng
     ctx.rule = ("every path (<= MaxDepth actions) of the TLC state graph of VMCalc.tla replayed on a real calculator; "
                 "non-trivial = Lij step preceded by at least one cache/scribble/regenerate/save-load action")
-    worlds_ = [("fcc", 0, 1), ("honeycomb", 0, 1)] if quick else [("fcc", 0, 1), ("honeycomb", 0, 1), ("hcp", 0, 2),
-                                                                  ("square", 0, 1), ("b2", 0, 1)]
+    # polarrect: sites with a non-zero vector basis (origin states: the cached bias-correction vectors are used)
+    worlds_ = [("fcc", 0, 1), ("honeycomb", 0, 1), ("polarrect", 1, 2)] if quick else [
+        ("fcc", 0, 1), ("honeycomb", 0, 1), ("polarrect", 1, 2), ("hcp", 0, 2), ("square", 0, 1), ("b2", 0, 1),
+        ("rect2site", 0, 2)]
     depth = 3 if quick else 5
     if only_saveload:
         depth = 4 if quick else 6
